@@ -34,25 +34,29 @@ Record request := mkReq {
    route hooks do, as a function of what they can legitimately read — the
    request object and the response object as the framework hands it over —
    together with the shared errors_map entries (by index) that
-   BaseRequest._raise raised while they ran; the custom error handlers; the
-   shared error objects *)
+   BaseRequest._raise raised while they ran, each with the fact whether the raise
+   happened inside an except block (only then does Python set __context__);
+   the custom error handlers; the shared error objects *)
 Record app_static := mkApp {
-  a_beh : request -> rstate -> program * list nat;
+  a_beh : request -> rstate -> program * list (nat * bool);
   a_eh : Z -> option (resp -> ehres);
   a_shared : nat         (* number of entries of config.errors_map *)
 }.
 
-(* per-thread cells of app.request / app.response, and the mutable part of the
-   shared error objects: for each errors_map entry the requests whose frames its
-   __traceback__ chain holds (newest first) *)
+(* the mutable part of one shared error object: the requests whose frames its
+   __traceback__ chain holds (newest first), and the request whose exception is
+   its __context__ *)
+Definition errstate := (list nat * option nat)%type.
+
+(* per-thread cells of app.request / app.response, and the shared error objects *)
 Record tstate := mkT {
   t_req : option request;        (* app.request.environ *)
   t_resp : rstate;               (* app.response: status, headers, cookies *)
-  t_tb : list (list nat)
+  t_tb : list errstate
 }.
 
 Definition ts_fresh (app : app_static) : tstate :=
-  mkT None st_init (repeat [] (a_shared app)).
+  mkT None st_init (repeat ([], None) (a_shared app)).
 
 (* ------------------------------------------------------------------ *)
 (* serving one request                                                 *)
@@ -82,14 +86,22 @@ Fixpoint set_nth {A} (n : nat) (v : A) (l : list A) : list A :=
   | x :: t, S n' => x :: set_nth n' v t
   end.
 
+(* "raise e" sets e.__context__ to the exception being handled, if there is one; outside
+   an except block it leaves __context__ as it is *)
+Definition new_context (id : nat) (inside : bool) (old : option nat) : option nat :=
+  if inside then Some id else old.
+
 (* BaseRequest._raise with the fix F12: out_err.with_traceback(None), then
-   "raise" pushes this request's frames: the chain holds this request only *)
-Definition raise_shared (id : nat) (tb : list (list nat)) (k : nat) : list (list nat) :=
-  set_nth k [id] tb.
+   "raise" pushes this request's frames: the chain holds this request only.
+   k = (index of the errors_map entry, raised inside an except block?) *)
+Definition raise_shared (id : nat) (tb : list errstate) (k : nat * bool) : list errstate :=
+  let old := nth (fst k) tb ([], None) in
+  set_nth (fst k) ([id], new_context id (snd k) (snd old)) tb.
 
 (* F12: "raise out_err" on an instance that already has a traceback prepends the new frames *)
-Definition raise_shared_F12 (id : nat) (tb : list (list nat)) (k : nat) : list (list nat) :=
-  set_nth k (id :: nth k tb []) tb.
+Definition raise_shared_F12 (id : nat) (tb : list errstate) (k : nat * bool) : list errstate :=
+  let old := nth (fst k) tb ([], None) in
+  set_nth (fst k) (id :: fst old, new_context id (snd k) (snd old)) tb.
 
 (* the events a server observes for this request *)
 Definition response := list event.
@@ -103,7 +115,7 @@ Definition events_of (r : wsgi_res) : response :=
 
 Section Raise.
 (* how BaseRequest._raise changes the traceback chains: [raise_shared] (the code) or [raise_shared_F12] *)
-Variable raise_rule : nat -> list (list nat) -> nat -> list (list nat).
+Variable raise_rule : nat -> list errstate -> nat * bool -> list errstate.
 
 (* after the cells hold [ts1]: routing, hooks, handler, casting, start_response *)
 Definition serve_decoded (app : app_static) (ts1 : tstate) (r : request) (path : str) : response * tstate :=
@@ -147,14 +159,15 @@ End Raise.
 Definition serve := serve_gen raise_shared.
 Definition run := run_gen raise_shared.
 
-(* per-request objects reachable from the application after the history:
-   the environ in the request cell (its input stream unless it was replaced by
-   the buffered body), and the frames held by the shared errors *)
+(* requests some of whose objects (environ, input stream, buffered body, ...) may still be
+   reachable from the application after the history: the one in the request cell, those
+   whose frames the shared errors' tracebacks hold, and those whose exception is the
+   __context__ of a shared error *)
 Definition alive (ts : tstate) : list nat :=
   (match t_req ts with
-   | Some r => if q_replaced r then [] else [q_id r]
+   | Some r => [q_id r]
    | None => []
-   end) ++ concat (t_tb ts).
+   end) ++ flat_map (fun e => fst e ++ match snd e with Some i => [i] | None => [] end) (t_tb ts).
 
 (* ------------------------------------------------------------------ *)
 (* the code before the fixes, kept as a record of the repaired defects *)
@@ -186,7 +199,7 @@ Definition peek_hook (st : rstate) : hprog :=
 
 (* one request of a generated history: the request, whether the app's peek hook is
    installed, the program its hooks/handler run, the shared errors raised *)
-Record hcase := mkHC { hc_req : request; hc_prog : program; hc_raised : list nat }.
+Record hcase := mkHC { hc_req : request; hc_prog : program; hc_raised : list (nat * bool) }.
 
 Definition dec_request (l : list Z) : option (request * list Z) :=
   match l with
@@ -204,12 +217,12 @@ Definition dec_hcase (fuel : nat) (l : list Z) : option (hcase * list Z) :=
   match dec_list (dec_hprog fuel) r1 with Some (bef, r2) =>
   match dec_list (dec_hprog fuel) r2 with Some (aft, r3) =>
   match dec_routing fuel r3 with Some (rt, r4) =>
-  match dec_list dec_nat r4 with Some (raised, r5) => Some (mkHC rq (mkProg bef aft rt) raised, r5)
+  match dec_list (dec_pair dec_nat dec_bool) r4 with Some (raised, r5) => Some (mkHC rq (mkProg bef aft rt) raised, r5)
   | None => None end | None => None end | None => None end | None => None end | None => None end.
 
 (* the behaviour function of the generated application: look the request up by
    id; the peek hook (registered first) is a function of the handed-over state *)
-Definition beh_of (peek : bool) (cases : list hcase) (rq : request) (st : rstate) : program * list nat :=
+Definition beh_of (peek : bool) (cases : list hcase) (rq : request) (st : rstate) : program * list (nat * bool) :=
   match find (fun c => Nat.eqb (q_id (hc_req c)) (q_id rq)) cases with
   | Some c =>
       let p := hc_prog c in
@@ -221,7 +234,8 @@ Definition enc_response (r : response) : list Z := enc_list enc_event r.
 
 (* input: 3 ; reset ; ids   (runtime-rule experiment), or
           variant (0 = the code, 1 = F11 variant, 2 = F12 variant) ; peek ; shared count ; eh table ; cases
-   output: the responses, then for each shared error its traceback owners, then the alive ids *)
+   output: the responses, then for each shared error its traceback owners and its context owner, then the
+   ids that may be alive *)
 Definition corr_C09 (inp : list Z) : list Z :=
   let fuel := length inp in
   match inp with
@@ -230,7 +244,7 @@ Definition corr_C09 (inp : list Z) : list Z :=
          with_traceback(None) before each raise; output = owners of the frames in its chain *)
       let step := if Z.eqb reset 0 then raise_shared_F12 else raise_shared in
       enc_list (fun i => [Z.of_nat i])
-               (nth 0 (fold_left (fun tb id => step (Z.to_nat id) tb 0) ids [[]]) [])
+               (fst (nth 0 (fold_left (fun tb id => step (Z.to_nat id) tb (0, true)) ids [([], None)]) ([], None)))
   | 4%Z :: pk :: nshared :: n :: r0 =>
     (* a retention history: the same request class n times, ids 0..n-1; output = the last
        response, the traceback owners, the alive ids *)
@@ -244,7 +258,7 @@ Definition corr_C09 (inp : list Z) : list Z :=
         let app := mkApp (beh_of (negb (Z.eqb pk 0)) cases) (fun _ => None) (Z.to_nat nshared) in
         let '(rs, ts) := run app (ts_fresh app) (map hc_req cases) in
         enc_list enc_response (match rev rs with x :: _ => [x] | [] => [] end)
-        ++ enc_list (fun tb => enc_list (fun i => [Z.of_nat i]) tb) (t_tb ts)
+        ++ enc_list (fun e => enc_list (fun i => [Z.of_nat i]) (fst e) ++ enc_option (fun i => [Z.of_nat i]) (snd e)) (t_tb ts)
         ++ enc_list (fun i => [Z.of_nat i]) (alive ts)
     | None => bad_input
     end
@@ -266,7 +280,7 @@ Definition corr_C09 (inp : list Z) : list Z :=
         else if Z.eqb variant 2 then run_F12 app (ts_fresh app) reqs
         else run app (ts_fresh app) reqs in
       enc_list enc_response rs
-      ++ enc_list (fun tb => enc_list (fun i => [Z.of_nat i]) tb) (t_tb ts)
+      ++ enc_list (fun e => enc_list (fun i => [Z.of_nat i]) (fst e) ++ enc_option (fun i => [Z.of_nat i]) (snd e)) (t_tb ts)
       ++ enc_list (fun i => [Z.of_nat i]) (alive ts)
     | None => bad_input end | None => bad_input end
   | _ => bad_input
